@@ -16,7 +16,7 @@ ORDERS = ("mostSignificantByteFirst", "leastSignificantByteFirst")
 
 META = {
     "level": "model_checking",
-    "claim": "For every integer width in the listed set (quick: 1,2,7,8,9,15,16,17,24,31,32,33,48,63,64; thorough: every width 1..128), all three "
+    "claim": "For every integer width in the listed set (quick: 1,2,7,8,9,15,16,17,24,31,32,33,48,63,64,65,127,128; thorough: every width 1..128), all three "
              "encodings, both byte orders and all 8 bit offsets, with every bit of the field and its neighbours symbolic, z3 proves that the "
              "real decoder (also when the encoding carries a context calibrator whose context does not hold) returns the unsigned / two's-complement value of exactly the field's bits (byte-reversed for whole-byte "
              "little-endian fields), as an IntParameter whose raw_value is the value, advancing the cursor by the width. For IEEE 16/32/64 "
@@ -26,7 +26,7 @@ META = {
     "trusted": "z3; BV proxies (every path cross-validated against the unpatched library, floats through the real struct.unpack); "
                "CPython's struct implements IEEE-754 (NaN/inf/-0/subnormals) - the check proves the right bytes reach the right format code; "
                "binary64 arithmetic for a 24-bit integer times a power of two is exact (MIL-1750A)",
-    "bounds": {"quick": {"integer widths": [1, 2, 7, 8, 9, 15, 16, 17, 24, 31, 32, 33, 48, 63, 64], "offsets": "0..7", "float": "IEEE 16/32/64, 1750A"},
+    "bounds": {"quick": {"integer widths": [1, 2, 7, 8, 9, 15, 16, 17, 24, 31, 32, 33, 48, 63, 64, 65, 127, 128], "offsets": "0..7", "float": "IEEE 16/32/64, 1750A"},
                "thorough": {"integer widths": "1..128", "offsets": "0..7", "float": "IEEE 16/32/64, 1750A"}},
     "stubs": ["struct.unpack(fmt, b): uninterpreted function of (fmt, b)", "int.from_bytes / to_bytes modelled exactly"],
     "outside_claim": ["IEEE semantics of struct itself", "little-endian integer fields whose width is not a whole number of bytes (the property makes no "
